@@ -122,11 +122,13 @@ struct Dir {
   eof_seen: bool,
   forwarded: usize,
   closed: bool,
+  /// the "network" is stalled: the pump neither forwards nor reads (the sender's stream buffer fills up)
+  stalled: bool,
 }
 
 impl Dir {
   fn new() -> Self {
-    Dir { pending: Default::default(), budget: None, chunk: None, eof_seen: false, forwarded: 0, closed: false }
+    Dir { pending: Default::default(), budget: None, chunk: None, eof_seen: false, forwarded: 0, closed: false, stalled: false }
   }
 }
 
@@ -193,6 +195,11 @@ impl Link {
     self.release(Way::AtoB);
     self.release(Way::BtoA);
   }
+  /// Stall / un-stall the network in one direction: while stalled nothing is read from the sending
+  /// side either, so its stream buffer fills like a kernel socket buffer whose peer has stopped reading.
+  pub fn stall(&self, w: Way, on: bool) {
+    self.with(w, |d| d.stalled = on);
+  }
   pub fn set_chunk(&self, w: Way, chunk: Option<usize>) {
     self.with(w, |d| d.chunk = chunk);
   }
@@ -231,6 +238,8 @@ async fn pump(
         };
         if d.closed {
           (vec![], true)
+        } else if d.stalled {
+          (vec![], false)
         } else {
           let mut n = d.pending.len();
           if let Some(b) = d.budget {
@@ -278,8 +287,8 @@ async fn pump(
     let already_eof = {
       let s = l.st.lock();
       match w {
-        Way::AtoB => s.ab.eof_seen,
-        Way::BtoA => s.ba.eof_seen,
+        Way::AtoB => s.ab.eof_seen || s.ab.stalled,
+        Way::BtoA => s.ba.eof_seen || s.ba.stalled,
       }
     };
     tokio::select! {
